@@ -5,6 +5,7 @@ real code by the `hints` oracle).
 -/
 import PromqlVerif.Sem
 import PromqlVerif.Proofs.TrimSound
+import PromqlVerif.Proofs.HintsProof
 namespace PromqlVerif.C16
 open PromqlVerif Val
 
@@ -120,5 +121,33 @@ theorem cov_of_hints_pinned_msel (lo hi stop : Int) (c : Ctx V) (s : VSel) (r ts
   have := pinned_range_window_within_hints c.start stop s r ts hat c.lookback
   simp only at this
   omega
+
+/-! ### the function and grouping hints -/
+
+/-- **every selector of every expression is created with the `Func`, `By` and `Grouping` hints the
+reference engine gives it** (`Hints.lean`, `Proofs/HintsProof.lean`): the reference derives them
+from the selector's path of ancestors (`extractFuncFromPath`: the nearest enclosing call or
+aggregation, nothing beyond a binary expression; `extractGroupsFromPath`: the parent only, if it is
+an aggregation); the engine hands a hints value down `newOperator` and rewrites it at calls,
+aggregations, binary expressions and wrappers. By induction over the expression, carrying "the
+hints in hand are what the path walked so far yields". The model of the engine's side is compared
+with the hints the real engine passes to the storage (`hints` oracle, `eng_vs_model`), the model of
+the reference's side with those of the real reference engine (the same oracle compares the two
+engines). -/
+theorem engine_hints_equal_reference_hints {V : Type} (e : Expr V) : engHints Hint.empty e = refHints [] e :=
+  engine_hints_are_reference_hints e
+
+/-- `sum by (a) (rate(m[1m])) + max without (b) (-n)`: the range selector below `rate` gets `rate` and
+no grouping, the selector below the unary minus keeps `max` but loses the grouping -/
+example :
+    engHints Hint.empty (.bin "+" false ⟨.oneToOne, false, [], []⟩
+      (.agg "sum" false ["a"] (.call "rate" [.msel ⟨[⟨.eq, "__name__", "m"⟩], 0, none, none⟩ 60000]))
+      (.agg "max" true ["b"] (.neg (.vsel ⟨[⟨.eq, "__name__", "n"⟩], 0, none, none⟩))) : Expr Int)
+      = [⟨"rate", false, []⟩, ⟨"max", false, []⟩] := by decide
+
+/-- `sum by (a) (m)`: the immediate operand of the aggregation gets its grouping -/
+example :
+    engHints Hint.empty (.agg "sum" false ["a"] (.vsel ⟨[⟨.eq, "__name__", "m"⟩], 0, none, none⟩) : Expr Int)
+      = [⟨"sum", true, ["a"]⟩] := by decide
 
 end PromqlVerif.C16
